@@ -724,3 +724,46 @@ def iter_base(e):
 
 def is_field_expr(x, field, owner=None):
     return x[0] == "field" and x[2] == field and (owner is None or (x[3] or "").endswith(owner))
+
+
+# ------------------------------------------------------------------------------------------------
+# the "this command is being re-run from the retransmission list" flag, identified by data flow and not by its name
+# ------------------------------------------------------------------------------------------------
+def rerun_flag_param(P, fn, _cache={}):
+    """index (1-based local) of the parameter of `fn` that receives exec_command's rerun flag: exec_command is
+    called with the constant `true` from the retransmission loop of `run` and with `false` for fresh commands; the
+    handlers get that parameter passed on.  Falls back to None."""
+    key = (id(P), fn.name)
+    if key in _cache:
+        return _cache[key]
+    res = None
+    try:
+        ec = P.one("Zeroconf::exec_command")
+        # which parameter of exec_command is the flag: the one that receives boolean constants at its call sites
+        flag = None
+        consts = {}
+        for (g, b, t) in P.call_sites_of(ec.name):
+            for ai, a in enumerate(t["args"]):
+                if a.get("k") == "const" and a.get("ty") == "bool":
+                    consts.setdefault(ai, set()).add(bool(a.get("val")))
+        for ai, vs in consts.items():
+            if vs == {True, False}:
+                flag = ai + 1
+        if fn is ec:
+            res = flag
+        elif flag is not None:
+            tr = tracer(P, ec)
+            for b, t in ec.calls():
+                if fn.name in P.call_targets(t):
+                    for ai, a in enumerate(t["args"]):
+                        e = tr.operand(a, endpos(ec, b))
+                        if strip(e) == {("param", flag)}:
+                            res = ai + 1
+    except KeyError:
+        res = None
+    if res is None:
+        for l in range(1, fn.argc + 1):
+            if fn.locals[l].get("name") == "repeating":
+                res = l
+    _cache[key] = res
+    return res
